@@ -904,6 +904,80 @@ def run(ctx):
     # J: an index guarded by an *inclusive* upper bound (`if i <= n { v[i] }`, `if i > n { return Err } .. v[i]`): the guard admits
     # i == n, one past the end of a container of n elements.  Expected count on a correct tree is zero; instances of the guard
     # shape (exclusive forms included) are counted so that the rule is seen to look at something.
+    # P: an "everything announced is present" check built from count x width bounds the count only while width >= 1.  In the table
+    # readers (tables/*.rs), for every product of two header quantities that enters a rejecting size guard: each factor is either
+    # bounded on its own by that guard (it also occurs outside the product, as a byte count of something that must be present), or
+    # the *other* factor is rejected when zero by an earlier guard.  (A BET table with 0-bit entries passed the size check for any
+    # file_count; every enumeration then walked file_count entries.)
+    R_prod = ctx.rule("C05.P-count-times-width-checks-reject-a-zero-width", "in tables/*.rs readers: for each header product count x width inside a rejecting size guard, the count (a factor some loop runs up to or sizes a collection with) also occurs on its own in the guard, or the width has a rejecting == 0 guard before it", floor=1)
+    mpq_ = prog.crate("wow_mpq")
+    for f in mpq_.fn_list:
+        if f.kind == "Closure" or not f.hir or "::tests::" in f.path or not re.search(r"src/tables/(bet|het)\.rs$", f.file) or not f.path.endswith("::read"):
+            continue
+        body = f.hir["body"]
+        lets_ = {l["pat"]["name"]: l["init"] for l in hirq.find(body, "let") if l["pat"].get("k") == "bind" and l.get("init") is not None}
+
+        def inl(e, d=0):
+            r_ = hirq.render(e)
+            if d > 3:
+                return r_
+            for nm, init in lets_.items():
+                # (a local, not the field of the same name: `flag_count`, not `header.flag_count`)
+                if re.search(r"(?<![.\w])%s\b" % re.escape(nm), r_) and nm not in ("header", "cursor", "table_data", "data"):
+                    rep_ = "(" + inl(init, d + 1) + ")"
+                    r_ = re.sub(r"(?<![.\w])%s\b" % re.escape(nm), lambda _m, rep_=rep_: rep_, r_)
+            return r_
+
+        def fld(e):
+            e = hirq.strip(e)
+            while e.get("k") == "cast":
+                e = hirq.strip(e["e"])
+            if e.get("k") == "path" and (e.get("res") or {}).get("local") in lets_:
+                return fld(lets_[e["res"]["local"]])
+            return hirq.render(e) if e.get("k") == "field" else None
+        guards = [g for g in hirq.find(body, "if") if g["c"].get("k") != "letx" and any(x.get("k") == "ret" and "Err" in hirq.render(x.get("e")) for x in hirq.walk(g["then"]))]
+        for l in hirq.find(body, "let"):
+            i0 = hirq.strip(l.get("init") or {})
+            if not (l["pat"].get("k") == "bind" and i0.get("k") == "bin" and i0["op"] == "*"):
+                continue
+            fa, fb = fld(i0["l"]), fld(i0["r"])
+            if not fa or not fb or "header" not in fa or "header" not in fb:
+                continue
+            prod_name = l["pat"]["name"]
+            g = next((g_ for g_ in guards if (g_.get("ln") or 0) > (l.get("ln") or 0) and re.search(r"\b%s\b" % re.escape(prod_name), inl(g_["c"]) + " " + hirq.render(g_["c"]))), None)
+            if g is None:
+                # the product may reach the guard through further locals
+                g = next((g_ for g_ in guards if (g_.get("ln") or 0) > (l.get("ln") or 0) and inl(i0).replace(" as _", "") in inl(g_["c"]).replace(" as _", "")), None)
+            if g is None:
+                continue
+            ctx.saw_fn(f)
+            cond = inl(g["c"]).replace(" as _", "")
+            prod_r = inl(i0).replace(" as _", "")
+            rest = cond.replace(prod_r, "PRODUCT")
+            # which factor is the *count*: the one some loop of the crate runs up to (`0..x.file_count`) or sizes a collection with
+            def count_like(fr):
+                nm_ = fr.split(".")[-1]
+                for f2 in mpq_.fn_list:
+                    if not f2.hir or "::tests::" in f2.path:
+                        continue
+                    for x in hirq.walk(f2.hir["body"]):
+                        if x.get("k") == "struct" and re.search(r"ops::range::Range", (x.get("res") or {}).get("def") or "") and any(n_ == "end" and re.search(r"\.%s\b" % re.escape(nm_), hirq.render(e_)) for n_, e_ in x["fields"]):
+                            return True
+                        if x.get("k") in ("call", "mcall") and (x.get("m") == "with_capacity" or (x.get("fn") or "").endswith("with_capacity")) and re.search(r"\.%s\b" % re.escape(nm_), hirq.render(x)):
+                            return True
+                return False
+            for factor, other in ((fa, fb), (fb, fa)):
+                if not count_like(factor):
+                    continue
+                own = factor in rest
+                zero_guard = any((g2.get("ln") or 0) < (g.get("ln") or 0) and re.search(r"%s == 0|0 == %s|%s < 1" % (re.escape(other), re.escape(other), re.escape(other)), hirq.render(g2["c"]).replace(" as _", "")) for g2 in guards)
+                inst = {"fn": norm(f.path), "product": prod_r[:60], "factor": factor.split(".")[-1]}
+                if own or zero_guard:
+                    ctx.ok(R_prod, dict(inst, bounded="occurs on its own in the guard" if own else "the other factor is rejected when zero"))
+                else:
+                    ctx.bad(R_prod, "P|%s|%s" % (norm(f.path), factor.split(".")[-1]), "%s:%d" % (f.file, g.get("ln") or 0), "`%s` is bounded only through the product `%s`, and `%s` may be 0" % (factor, prod_r[:50], other),
+                            "with that width 0 the size check holds for any count: a tiny table announces billions of entries and every enumeration of the archive walks them")
+
     # O: where an index into a locally built Vec is guarded by a comparison, the comparison is with *that* Vec's length (or with the
     # very expression the Vec was sized with) — a count taken from the header says how many elements were announced, not how many
     # were collected (a first pass that stops early leaves the Vec shorter)
